@@ -829,11 +829,11 @@ class Engine:
             v = rd(parse_place(rv[4:-1]))
             return len(v._items if isinstance(v, VecV) else v.items if isinstance(v, SliceV) else v)
         if rv.startswith('&raw const ') or rv.startswith('&raw mut '):
-            return mkref(parse_place(rv.split(' ', 2)[2]))
+            return mkref(parse_place(rv.split(' ', 2)[2].replace('(fake) ', '').replace('(fake shallow) ', '')))
         if rv.startswith('&mut '):
             return mkref(parse_place(rv[5:]))
         if rv.startswith('&'):
-            return mkref(parse_place(rv[1:].replace('fake shallow ', '').replace('fake ', '')))
+            return mkref(parse_place(rv[1:].replace('(fake shallow) ', '').replace('(fake) ', '').replace('fake shallow ', '').replace('fake ', '')))
         if rv.startswith('no_retag '):
             return operand(rv[9:])
         # casts
